@@ -13,11 +13,11 @@ From Coq Require Import List Arith Bool Ascii String.
 From Cb Require Import C17.Model.
 Import ListNotations.
 
-Inductive sres := SFound (p : nat) | SNone | SFuel.
+Inductive s3res := SFound (p : nat) | SNone | SFuel.
 
 (* expandMacros: while ((pos = result.find(name, pos)) != npos) { in string / not a whole word:
    pos += name.length(); continue;  else replace }  - same loop as C17.Model.search *)
-Fixpoint search3 (fuel : nat) (name s : str) (rs : ranges) (pos : nat) : sres :=
+Fixpoint search3 (fuel : nat) (name s : str) (rs : ranges) (pos : nat) : s3res :=
   match fuel with
   | 0 => SFuel
   | S f =>
